@@ -26,7 +26,7 @@ m = {
  },
  "engines": [
    {"name": "simv", "path": "simv/", "serves_properties": [c["property_id"] for c in CHECKS],
-    "kind_free_text": "own deterministic simulator: simulated kernel (file system, fd table, POSIX record locks, virtual clock, process table) under the real io.Buffered*/fasteners/molli code; baton-passed threads under a seeded scheduler; seeded plan generation; fault injection (kill/torn write/EIO/ENOSPC/exceptions/stalls/timeouts/child failures/stream damage); reference-model oracles; ddmin shrinking; JSON replay files"}
+    "kind_free_text": "own deterministic simulator: simulated kernel (file system with O_APPEND / rename / symlinks / stat, fd table with descriptor-level calls, POSIX record locks with inode identity, virtual clock, process table) under the real io.Buffered*/fasteners/molli code; baton-passed threads under a seeded scheduler; seeded plan generation; fault injection (kill/torn write/EIO/ENOSPC/exceptions/stalls/timeouts/child failures/stream damage); reference-model oracles; ddmin shrinking; JSON replay files"}
  ],
  "checks": CHECKS,
  "not_applicable": [{"property_id": k, "reason": v} for k, v in sorted(NA.items())],
